@@ -24,6 +24,11 @@ structure Classes where
   isLetter : Char → Bool
   isDigit : Char → Bool
 
+/-- the ASCII part of the unicode tables (used by the examples) -/
+def asciiClasses : Classes where
+  isLetter c := ('a' ≤ c && c ≤ 'z') || ('A' ≤ c && c ≤ 'Z')
+  isDigit c := '0' ≤ c && c ≤ '9'
+
 /-- unicode.IsSpace (the White_Space property; identical in every Unicode version Go has shipped) -/
 def isSpace (c : Char) : Bool :=
   let n := c.toNat
@@ -413,33 +418,38 @@ def stepOperator (ch : Char) (st : St) (h : Holders) (line col : Nat) : Step :=
   let (lit, st1) := scanOperator ch st
   .tok { kind := operatorKind ch lit, lit := lit, line := line, col := col } none st1 h
 
+/-- `switch s.peek()` after `@`: `@%` environment variable, `@#` runtime information, `@@` flag, else variable -/
+def variableKind (st : St) : Kind × St :=
+  match peek st with
+  | some c =>
+    if c = '%' then (.envVar, (next st).2)
+    else if c = '#' then (.runtimeInfo, (next st).2)
+    else if c = '@' then (.flag, (next st).2)
+    else (.variable, st)
+  | none => (.variable, st)
+
+def isEnvVar : Kind → Bool
+  | .envVar => true
+  | _ => false
+
 /-- `case ch == VariableSign` -/
 def stepVariable (cls : Classes) (st : St) (h : Holders) (line col : Nat) : Step :=
-  let (kind, st1) : Kind × St :=
-    match peek st with
-    | some c =>
-      if c = '%' then (.envVar, (next st).2)
-      else if c = '#' then (.runtimeInfo, (next st).2)
-      else if c = '@' then (.flag, (next st).2)
-      else (.variable, st)
-    | none => (.variable, st)
-  let isEnv : Bool := match kind with | .envVar => true | _ => false
-  if isEnv ∧ peek st1 = some '`' then
-    let st2 := (next st1).2
-    let (raw, term, st3) := scanString '`' st2
-    let lit := unescapeIdentifier raw '`'
+  let ks := variableKind st
+  if isEnvVar ks.1 ∧ peek ks.2 = some '`' then
+    let r := scanString '`' (next ks.2).2
+    let lit := unescapeIdentifier r.1 '`'
     -- `if len(literal) < 1 { err = "invalid variable symbol" }` overwrites a "literal not terminated"
     let err : Option ErrKind :=
       if lit.isEmpty then some .invalidVariableSymbol
-      else if term then none else some .literalNotTerminated
-    .tok { kind := kind, lit := lit, quoted := true, line := line, col := col } err st3 h
-  else if peekIs st1 (isIdentRune cls) then
-    match next st1 with
+      else if r.2.1 then none else some .literalNotTerminated
+    .tok { kind := ks.1, lit := lit, quoted := true, line := line, col := col } err r.2.2 h
+  else if peekIs ks.2 (isIdentRune cls) then
+    match next ks.2 with
     | (some hd, st2) =>
-      let (lit, st3) := scanIdentifier cls hd st2
-      .tok { kind := kind, lit := lit, line := line, col := col } none st3 h
-    | (none, _) => .tok { kind := kind, lit := [], line := line, col := col } (some .invalidVariableSymbol) st1 h
-  else .tok { kind := kind, lit := [], line := line, col := col } (some .invalidVariableSymbol) st1 h
+      let r := scanIdentifier cls hd st2
+      .tok { kind := ks.1, lit := r.1, line := line, col := col } none r.2 h
+    | (none, _) => .tok { kind := ks.1, lit := [], line := line, col := col } (some .invalidVariableSymbol) ks.2 h
+  else .tok { kind := ks.1, lit := [], line := line, col := col } (some .invalidVariableSymbol) ks.2 h
 
 /-- `case ch == ExternalCommandSign` -/
 def stepExternal (st : St) (h : Holders) (line col : Nat) : Step :=
@@ -458,28 +468,31 @@ def stepQuotedIdent (ch : Char) (st : St) (h : Holders) (line col : Nat) : Step 
   .tok { kind := .identifier, lit := unescapeIdentifier raw ch, quoted := true, line := line, col := col }
     (if term then none else some .literalNotTerminated) st1 h
 
+/-- the body of `Scan()` after `ch := s.next()` returned a rune: the prepared-statement prefix and the big `switch` -/
+def dispatch (cls : Classes) (m : Mode) (ch : Char) (st : St) (h : Holders) : Step :=
+  let line := st.line
+  let col := st.col
+  if m.forPrepared ∧ ch = '?' then
+    .tok { kind := .placeholder, lit := [ch], holderOrdinal := h.ordinal + 1, line := line, col := col } none st
+      { h with ordinal := h.ordinal + 1, number := h.number + 1 }
+  else if m.forPrepared ∧ ch = ':' ∧ peekIs st (isIdentRune cls) then stepNamedPlaceholder cls ch st h line col
+  else if isDecimal ch then stepNumber ch st h line col
+  else if isIdentRune cls ch then stepWord cls ch st h line col
+  else if isOperatorRune ch then stepOperator ch st h line col
+  else if ch = '@' then stepVariable cls st h line col
+  else if ch = '$' then stepExternal st h line col
+  else if ch = '/' ∧ peek st = some '*' then .comment (scanComment st.rest.length (next st).2)
+  else if ch = '-' ∧ peek st = some '-' then .comment (scanLineComment (next st).2)
+  else if ch = '\'' ∨ (!m.ansiQuotes ∧ ch = '"') then stepString ch st h line col
+  else if ch = '`' ∨ (m.ansiQuotes ∧ ch = '"') then stepQuotedIdent ch st h line col
+  else .tok { kind := .rune ch, lit := [ch], line := line, col := col } none st h
+
 /-- `Scan()`: skip white space, read one rune, dispatch -/
 def scanStep (cls : Classes) (m : Mode) (st0 : St) (h : Holders) : Step :=
   let stS := skipSpaces st0
   match next stS with
   | (none, _) => .tok { kind := .eof, lit := ['\uFFFD'], line := stS.line, col := stS.col } none stS h
-  | (some ch, st) =>
-    let line := st.line
-    let col := st.col
-    if m.forPrepared ∧ ch = '?' then
-      .tok { kind := .placeholder, lit := [ch], holderOrdinal := h.ordinal + 1, line := line, col := col } none st
-        { h with ordinal := h.ordinal + 1, number := h.number + 1 }
-    else if m.forPrepared ∧ ch = ':' ∧ peekIs st (isIdentRune cls) then stepNamedPlaceholder cls ch st h line col
-    else if isDecimal ch then stepNumber ch st h line col
-    else if isIdentRune cls ch then stepWord cls ch st h line col
-    else if isOperatorRune ch then stepOperator ch st h line col
-    else if ch = '@' then stepVariable cls st h line col
-    else if ch = '$' then stepExternal st h line col
-    else if ch = '/' ∧ peek st = some '*' then .comment (scanComment st.rest.length (next st).2)
-    else if ch = '-' ∧ peek st = some '-' then .comment (scanLineComment (next st).2)
-    else if ch = '\'' ∨ (!m.ansiQuotes ∧ ch = '"') then stepString ch st h line col
-    else if ch = '`' ∨ (m.ansiQuotes ∧ ch = '"') then stepQuotedIdent ch st h line col
-    else .tok { kind := .rune ch, lit := [ch], line := line, col := col } none st h
+  | (some ch, st) => dispatch cls m ch st h
 
 /-! ## the token loop -/
 
